@@ -140,8 +140,9 @@ def run(mir_path, rule, mode, shape, W, menu, src_dir):
             wm = re.fullmatch(r"word(\d+)", which)
             if wm:
                 which, wl = "word", int(wm.group(1))
-            if kinds and which == kinds[-1] and which in ("word", "space", "newline", "number"):
-                raise PathEnd()  # maximal munch of the lexers: no two adjacent words / blanks runs
+            blank = {"space", "tab"}
+            if kinds and (which == kinds[-1] and which in ("word", "space", "newline", "number", "tab") or (which in blank and kinds[-1] in blank)):
+                raise PathEnd()  # maximal munch of the lexers / condense_spaces: no two adjacent words / blank runs
             kinds.append(which)
             if which == "word":
                 cs = [z3.BitVec(f"c{i}_{j}", 32) for j in range(wl)]
@@ -153,6 +154,10 @@ def run(mir_path, rule, mode, shape, W, menu, src_dir):
             elif which == "space":
                 cs = [z3.BitVecVal(32, 32)]
                 kind = Enum("Space", TK.index("Space"), [Int(z3.BitVecVal(1, 64))])
+            elif which == "tab":
+                # a tab is lexed as Space(2): the blank count of a space token is not its width in characters
+                cs = [z3.BitVecVal(9, 32)]
+                kind = Enum("Space", TK.index("Space"), [Int(z3.BitVecVal(2, 64))])
             elif which == "newline":
                 cs = [z3.BitVecVal(10, 32)]
                 kind = Enum("Newline", TK.index("Newline"), [Int(z3.BitVecVal(1, 64))])
